@@ -51,6 +51,11 @@ def run(chk, repo, tier):
     chk.explanation = ("All paths of the verification entry points (decoders opaque) are enumerated; every return value is "
                        "classified; the tag and message terms reaching hash_to_G2 and the bilinear exponent of the compared "
                        "value are computed per suite.")
+    chk.rule("C02.R6", "the canonical signature is accepted: an honestly produced (PK, message, signature) is refused only through a "
+                       "failed validation predicate, for every message including the empty one (C01.R5, C01.R6 re-stated)", 4)
+    from . import C01 as _dep_C01
+    from ..report import restate as _restate
+    _restate(chk, "C02.R6", _dep_C01, repo, lambda r, c: r in ("C01.R5", "C01.R6"))
     chk.rule("C02.R1", "the only accepting exit is `final_exponentiate(...) == FQ12.one()`; every other exit returns False", 8)
     chk.rule("C02.R2", "the four tags are non-empty and pairwise distinct; each entry point hashes under its own suite's tag "
                        "(PopVerify: POP_TAG)", 1 + 8)
